@@ -62,7 +62,8 @@ func (k *Case) loopIdle() bool {
 
 // Case is one controlled execution.
 type Case struct {
-	cbHold       bool // held runs: FidDestroy callbacks stay parked
+	cbHold       bool         // held runs: FidDestroy callbacks stay parked
+	flushSawWork map[int]bool // flush request -> its target was being worked on when flush() read its status
 	C            *Ctl
 	Cfg          Cfg
 	ch           *ConnH
@@ -206,6 +207,18 @@ func (k *Case) Do(step []any) error {
 	case "WDispatch":
 		err = c.Grant("proc_dispatch", a(1))
 	case "WFlush2":
+		// what flush() is about to read: is its target being worked on (or held by the implementation)?
+		k.flushSawWork[a(1)] = false
+		if fr := a(1); fr >= 1 && fr <= len(k.ch.Reqs) {
+			old := k.ch.Reqs[fr-1].Tc.Oldtag
+			for n := fr - 1; n >= 1; n-- {
+				if q := k.ch.Reqs[n-1]; q.Tc.Tag == old && q.Tc.Type != go9p.Tflush {
+					ri := go9p.VerifReqSnapshot(q)
+					k.flushSawWork[fr] = (ri.Work || ri.Saved) && !ri.Responded
+					break
+				}
+			}
+		}
 		err = c.Grant("flush_status", a(1))
 	case "WFlush3Cancel":
 		err = c.Grant("flush_act", a(1))
@@ -397,6 +410,10 @@ func (k *Case) flush3(r int, cancel bool) error {
 			k.logStep("WFlush3", r, cancel)
 			return nil
 		}
+	}
+	if k.Cfg.HasFlushOp && k.flushSawWork[r] {
+		// the implementation was working on the target when flush() looked, it has a FlushOp, and was not told
+		c.Emit(Event{"ev": "flushop-missing", "n": r})
 	}
 	if cancel {
 		return fmt.Errorf("WFlush3Op(%d, cancel): FlushOp was not invoked", r)
@@ -694,7 +711,7 @@ func RunCase(t *testing.T, lg *go9p.Logger, cfg Cfg, seed int64, fn func(k *Case
 		}
 		c.Start(srv, ops)
 		defer c.Stop()
-		k := &Case{C: c, Cfg: cfg, rng: rand.New(rand.NewSource(seed)), late: map[int]bool{}, answered: map[int]bool{},
+		k := &Case{C: c, Cfg: cfg, rng: rand.New(rand.NewSource(seed)), late: map[int]bool{}, answered: map[int]bool{}, flushSawWork: map[int]bool{},
 			extraDone: map[int]bool{}, kinds: map[int]string{}, written: map[int]bool{}, enq: map[int]bool{}, atSend: map[int]bool{}, aborted: map[int]bool{}}
 		kk = k
 		k.ch = c.NewConn()
